@@ -160,9 +160,25 @@ def audit_assumptions(pid):
         w.write("From HecsV Require Import Properties.%s.\n" % pid)
         for t in thms:
             w.write('Goal True. idtac "@@ %s". exact I. Qed.\nPrint Assumptions %s.\n' % (t, t))
-    rc, out = sh(["coqc", "-Q", COQ, "HecsV", f], cwd=d, timeout=900)
-    if rc:
-        raise BuildError("assumption-audit", out)
+    # the audit only depends on the compiled files: reuse the captured output while no .vo changed
+    import hashlib
+    h = hashlib.sha256(open(f, "rb").read())
+    for root, _, files in sorted(os.walk(COQ)):
+        for fn in sorted(files):
+            if fn.endswith(".vo"):
+                st = os.stat(os.path.join(root, fn))
+                h.update(("%s %d %d\n" % (os.path.join(root, fn), st.st_mtime_ns, st.st_size)).encode())
+    key, cache = h.hexdigest(), os.path.join(d, "Audit_%s.out" % pid)
+    out = None
+    if os.path.exists(cache):
+        k, _, body = open(cache).read().partition("\n")
+        if k == key:
+            out = body
+    if out is None:
+        rc, out = sh(["coqc", "-Q", COQ, "HecsV", f], cwd=d, timeout=900)
+        if rc:
+            raise BuildError("assumption-audit", out)
+        open(cache, "w").write(key + "\n" + out)
     res, cur = {}, None
     for line in out.splitlines():
         if line.startswith("@@ "):
